@@ -7,6 +7,7 @@ import EV.Proofs.CodecTx
 import EV.Proofs.CodecBlock
 import EV.Proofs.Sizes
 import EV.Proofs.TxAccessors
+import EV.Proofs.BridgePsetSize
 namespace EV.Props.C12
 open EV EV.Codec EV.Proofs.CodecTx EV.Proofs.CodecBlock
 
@@ -415,5 +416,158 @@ example : inIsCoinbase ⟨OutPoint.null, false, [], 0xffffffff, AssetIssuance.nu
 example : seqFromSecondsFloor 33554431 = .ok (65535 ||| 0x400000) ∧ (seqFromSecondsCeil 33554431).isOk = false := by decide
 
 end TxAccessors
+
+/-! ### bridge to C08: the size of an extracted PSET transaction
+
+  `PartiallySignedTransaction::extract_tx` (C08, model `Pset.extractTx`) assembles a `Transaction` from
+  PSET fields; `Transaction::size`/`weight`/`vsize` (above) and the codec laws (C01) speak about canonical
+  transactions.  `PsetFieldsOk` states canonicity on the PSET FIELDS (`EV.Proofs.BridgePsetSize`): global
+  `tx_version` and every stated lock time are `u32`s, the two vector bounds, and per input / output the
+  conditions of `InputFieldsOk` / `OutputFieldsOk`, which are *equivalent* to the canonicity of the
+  `TxIn` / `TxOut` that `extract_tx` builds. -/
+section PsetBridge
+open EV.Proofs.BridgePsetSize
+
+/-- the per-input field conditions (`previous_txid` 32 bytes; an index with low 30 bits all ones and
+    the pegin bit set allows no issuance; `final_script_sig` within `MAX_VEC_SIZE`; `sequence` a `u32`;
+    with an issuance: nonce accepted by `Tweak::from_inner`, 32-byte entropy, valid amounts — without:
+    nonce/entropy absent or zero; issuance range proofs valid; witness stacks within bounds) hold
+    exactly when the `TxIn` built by `extract_tx` is canonical -/
+theorem extract_tx_input_fields_iff (i : PsetInput) : InputFieldsOk P i ↔ i.toTxIn.wf P :=
+  inputFieldsOk_iff P i
+
+/-- the per-output field conditions (asset id 32 bytes / generator valid, amount `u64` / commitment
+    valid, compressed `ecdh_pubkey` a valid 33-byte nonce, script within `MAX_VEC_SIZE`, proofs valid)
+    hold exactly when the `TxOut` built by `extract_tx` is canonical -/
+theorem extract_tx_output_fields_iff (o : PsetOutput) (t : TxOut) (h : o.extract = .ok t) :
+    OutputFieldsOk P o ↔ t.wf P := extract_wf_out P o t h
+
+/-- `PartiallySignedTransaction::locktime` returns a `u32` when the fallback and every per-input
+    requirement are `u32`s (it returns one of them, or 0) -/
+theorem extract_tx_locktime_u32 (p : Pset) (lt : Nat) (hl : LockFieldsOk p) (h : p.locktime = .ok lt) :
+    lt < 2^32 := locktime_lt p lt hl h
+
+/-- **`PartiallySignedTransaction::extract_tx` of a PSET whose fields are in range returns a canonical
+    transaction** (the domain of the codec laws of C01 and of the size theorems above) -/
+theorem extract_tx_wf (p : Pset) (t : Tx) (h : p.extractTx = .ok t) (hp : PsetFieldsOk P p) : t.wf P :=
+  extract_wf P p t h hp
+
+/-- exactness: for a successful `extract_tx` the result is canonical **iff** version and selected lock
+    time are `u32`s, the vector bounds hold and every input and output satisfies its field conditions -/
+theorem extract_tx_wf_iff (p : Pset) (t : Tx) (h : p.extractTx = .ok t) :
+    t.wf P ↔
+      (p.global.txVersion < 2^32 ∧ t.lockTime < 2^32 ∧
+       p.inputs.length * P.sizeTxIn ≤ maxVecSize ∧ p.outputs.length * P.sizeTxOut ≤ maxVecSize ∧
+       (∀ i ∈ p.inputs, InputFieldsOk P i) ∧ (∀ o ∈ p.outputs, OutputFieldsOk P o)) :=
+  extract_wf_iff P p t h
+
+/-- **`Transaction::size()` of what `extract_tx` returns is the number of bytes its consensus
+    serialization writes** -/
+theorem extract_tx_size_eq (p : Pset) (t : Tx) (h : p.extractTx = .ok t) (hp : PsetFieldsOk P p) :
+    t.size = t.enc.length := extract_size_eq P p t h hp
+
+/-- `Transaction::weight()` of the extracted transaction = 3 × witness-stripped length + full length -/
+theorem extract_tx_weight_eq (p : Pset) (t : Tx) (h : p.extractTx = .ok t) (hp : PsetFieldsOk P p) :
+    t.weight = 3 * t.encStripped.length + t.enc.length := extract_weight_eq P p t h hp
+
+/-- `Transaction::vsize()` of the extracted transaction is that weight divided by 4, rounded up -/
+theorem extract_tx_vsize_bracket (p : Pset) (t : Tx) (h : p.extractTx = .ok t) (hp : PsetFieldsOk P p) :
+    3 * t.encStripped.length + t.enc.length ≤ 4 * t.vsize ∧
+    4 * t.vsize < 3 * t.encStripped.length + t.enc.length + 4 := extract_vsize_bracket P p t h hp
+
+/-- **what `extract_tx` returns is serializable and decodes back to itself** (C01 round trip): the
+    partial decoder stops exactly at its end, `deserialize` returns it -/
+theorem extract_tx_roundtrip (hs : SizesPos P) (p : Pset) (t : Tx) (h : p.extractTx = .ok t)
+    (hp : PsetFieldsOk P p) :
+    (∀ rest, Tx.dec P (t.enc ++ rest) = .ok (t, rest)) ∧ Tx.deserialize P t.enc = .ok t :=
+  ⟨extract_roundtrip P hs p t h hp, extract_deserialize P hs p t h hp⟩
+
+/-- the witness flag of the extracted transaction from the PSET fields: some input has an issuance
+    range proof or a non-empty final script / pegin witness, or some output has a proof -/
+theorem extract_tx_has_witness (p : Pset) (t : Tx) (h : p.extractTx = .ok t) :
+    t.hasWitness =
+      (p.inputs.any (fun i => i.issuanceValueRangeproof.isSome || i.issuanceKeysRangeproof.isSome ||
+          !(i.finalScriptWitness.getD []).isEmpty || !(i.peginWitness.getD []).isEmpty) ||
+       p.outputs.any (fun o => o.assetSurjectionProof.isSome || o.valueRangeproof.isSome)) :=
+  extract_hasWitness p t h
+
+/-- **the serialized length of `extract_tx`'s result as a sum over the PSET's inputs and outputs**
+    (`outOf o` is the `TxOut` built from output `o`: `extract_tx_output_of`) -/
+theorem extract_tx_size_formula (p : Pset) (t : Tx) (h : p.extractTx = .ok t) (hp : PsetFieldsOk P p) :
+    t.enc.length =
+      9 + varintSize p.inputs.length + varintSize p.outputs.length +
+      (p.inputs.map (fun i => Tx.inputScaled 1 (pHasWitness p) i.toTxIn)).sum +
+      (p.outputs.map (fun o => Tx.outputScaled 1 (pHasWitness p) (outOf o))).sum :=
+  extract_size_formula P p t h hp
+
+theorem extract_tx_output_of (p : Pset) (t : Tx) (h : p.extractTx = .ok t) :
+    t.input = p.inputs.map PsetInput.toTxIn ∧ t.output = p.outputs.map outOf ∧
+    ∀ o, outOf o = ⟨PsetOutput.pairAsset o.asset o.assetComm, PsetInput.pairValue o.amount o.amountComm,
+      PsetOutput.nonceOf o.ecdhPubkey, o.scriptPubkey, ⟨o.assetSurjectionProof, o.valueRangeproof⟩⟩ := by
+  obtain ⟨_, _, _, _, hi, ho⟩ := (EV.Proofs.PsetExtract.extractTx_ok_iff p t).1 h
+  exact ⟨hi, outputs_eq_map_outOf _ _ ho, fun _ => rfl⟩
+
+/-- converse: **every PSET made by `PartiallySignedTransaction::from_tx` from a canonical transaction
+    satisfies the field conditions** (no side condition on nonces or witness placement) -/
+theorem from_tx_fields_ok (t : Tx) (h : t.wf P) : PsetFieldsOk P (Pset.fromTx t) := fromTx_fieldsOk P t h
+
+/-- … hence whatever `extract_tx(from_tx(tx))` returns for a canonical `tx` (`tx` itself on the class
+    `Rt` of C08; otherwise `tx` with the nonces that `from_txout` does not carry nulled) is canonical and
+    reports its serialized length as its size -/
+theorem from_tx_extract_size (t t' : Tx) (h : t.wf P) (he : (Pset.fromTx t).extractTx = .ok t') :
+    t'.wf P ∧ t'.size = t'.enc.length := fromTx_extract_size P t t' h he
+
+/-! non-vacuity: a literal PSET with a pegin input carrying an issuance, a height requirement and
+    witnesses, a plain input, an explicit output and a blinded output with an uncompressed ECDH key -/
+
+/-- concrete primitives: a commitment / generator / key "parses" iff it has 33 bytes, a tweak iff 32;
+    proofs always; `size_of` values of a 64-bit build -/
+def exPrims : Prims :=
+  ⟨fun b => b.length == 33, fun b => b.length == 33, fun b => b.length == 33, fun b => b.length == 32,
+   fun _ => true, fun _ => true, 328, 160, 56⟩
+
+def exPset : Pset :=
+  { global := { txVersion := 2, fallbackLocktime := some 7, inputCount := 2, outputCount := 2 }
+    inputs := [
+      { previousTxid := List.replicate 32 7, previousOutputIndex := 5 + 2^30 + 2^31,
+        sequence := some 0xfffffffe, finalScriptSig := some [0x51], requiredHeightLocktime := some 500000,
+        issuanceValueAmount := some 1000, issuanceAssetEntropy := some (List.replicate 32 9),
+        finalScriptWitness := some [[1, 2, 3]], peginWitness := some [[4]] },
+      { previousTxid := List.replicate 32 8, previousOutputIndex := 0 } ]
+    outputs := [
+      { asset := some (List.replicate 32 1), amount := some 5, scriptPubkey := [0x51] },
+      { assetComm := some (0x0a :: List.replicate 32 1), amountComm := some (8 :: List.replicate 32 2),
+        amount := some (2^64), ecdhPubkey := some (4 :: List.replicate 64 3), scriptPubkey := [0x51],
+        valueRangeproof := some [1], assetSurjectionProof := some [2] } ] }
+
+/-- what `extract_tx` returns for it: lock time = the height requirement, flags out of the index, the
+    commitment shadows the (out-of-range) explicit amount, the ECDH key compressed -/
+def exTx : Tx :=
+  ⟨2, 500000,
+   [⟨⟨List.replicate 32 7, 5⟩, true, [0x51], 0xfffffffe,
+     ⟨List.replicate 32 0, List.replicate 32 9, .explicit 1000, .null⟩, ⟨none, none, [[1, 2, 3]], [[4]]⟩⟩,
+    ⟨⟨List.replicate 32 8, 0⟩, false, [], 0xffffffff, AssetIssuance.null, TxInWitness.empty⟩],
+   [⟨.explicit (List.replicate 32 1), .explicit 5, .null, [0x51], TxOutWitness.empty⟩,
+    ⟨.conf (0x0a :: List.replicate 32 1), .conf (8 :: List.replicate 32 2), .conf (3 :: List.replicate 32 3),
+     [0x51], ⟨some [2], some [1]⟩⟩]⟩
+
+example : PsetFieldsOk exPrims exPset := by decide
+example : exPset.extractTx = .ok exTx := by decide
+example : SizesPos exPrims := ⟨by decide, by decide, by decide⟩
+/-- so the theorems above apply, and indeed: -/
+example : exTx.size = 334 ∧ exTx.enc.length = 334 ∧ exTx.encStripped.length = 314 ∧
+    exTx.weight = 3 * 314 + 334 ∧ exTx.vsize = 319 := by decide +kernel
+example : Tx.deserialize exPrims exTx.enc = .ok exTx :=
+  (extract_tx_roundtrip exPrims ⟨by decide, by decide, by decide⟩ exPset exTx (by decide) (by decide)).2
+/-- strictness: each kind of condition can fail — a version beyond `u32`, a lock-time requirement beyond
+    `u32`, an issuance on the coinbase index, a stray nonce without an issuance, a 31-byte asset id -/
+example : ¬ PsetFieldsOk exPrims { exPset with global := { exPset.global with txVersion := 2^32 } } := by decide
+example : ¬ PsetFieldsOk exPrims { exPset with inputs := [{ requiredTimeLocktime := some (2^32) }, {}] } := by decide
+example : ¬ InputFieldsOk exPrims { previousOutputIndex := 0xffffffff, issuanceValueAmount := some 1 } := by decide
+example : ¬ InputFieldsOk exPrims { issuanceBlindingNonce := some (List.replicate 32 1) } := by decide
+example : InputFieldsOk exPrims { issuanceBlindingNonce := some (List.replicate 32 0) } := by decide
+example : ¬ OutputFieldsOk exPrims { asset := some (List.replicate 31 1), amount := some 1 } := by decide
+
+end PsetBridge
 
 end EV.Props.C12
